@@ -30,6 +30,14 @@ Proof.
     destruct (existsb _ l); reflexivity.
   - reflexivity.
 Qed.
+Lemma nth_firstn_lt (l : list X) : forall n i d, i < n -> nth i (firstn n l) d = nth i l d.
+Proof. induction l as [|y l IH]; intros [|n] [|i] d H; simpl; try reflexivity; try lia. apply IH. lia. Qed.
+Lemma nth_skipn_add (l : list X) : forall i p d, nth p (skipn i l) d = nth (i + p) l d.
+Proof. induction l as [|y l IH]; intros [|i] p d; simpl; try reflexivity. - destruct p; reflexivity. - apply IH. Qed.
+Lemma In_firstn (l : list X) : forall n x, In x (firstn n l) -> In x l.
+Proof. induction l as [|y l IH]; intros [|n] x H; simpl in *; try contradiction. destruct H as [H|H]; [left; exact H | right; eapply IH; exact H]. Qed.
+Lemma In_skipn' (l : list X) : forall n x, In x (skipn n l) -> In x l.
+Proof. induction l as [|y l IH]; intros [|n] x H; simpl in *; try contradiction; try exact H. right. eapply IH; exact H. Qed.
 End L.
 
 Lemma existsb_seq j n : existsb (Nat.eqb j) (seq 0 n) = (j <? n).
@@ -56,6 +64,9 @@ Proof.
     destruct (Nat.eqb a c) eqn:E; [apply Nat.eqb_eq in E; contradiction|].
     destruct (Nat.eqb q c); reflexivity.
 Qed.
+
+Lemma upd_q (s : St) c r q : upd s c r q = if Nat.eqb q c then r else s q.
+Proof. reflexivity. Qed.
 
 (* Hessian cells *)
 Lemma hset_length h i j (v : A) : length (hset h i j v) = length h.
@@ -140,27 +151,27 @@ Lemma alloc_fresh_shape k v o n :
 Proof.
   unfold alloc. destruct n as [|n]; destruct o as [|[|o]]; simpl; rewrite ?Nat.eqb_refl; simpl;
     repeat split; intros; try lia; try apply repeat_length.
-  all: match goal with |- length (nth ?i (_ :: repeat ?r ?m) []) = _ =>
-         destruct i as [|i]; [simpl; f_equal; apply repeat_length|];
-         simpl; rewrite nth_repeat; assert (Lb : (i <? m) = true) by (apply Nat.ltb_lt; lia); rewrite Lb;
-         simpl; f_equal; apply repeat_length end.
+  all: try (f_equal; apply repeat_length).
+  destruct i as [|i]; [simpl; f_equal; apply repeat_length|].
+  rewrite nth_repeat. assert (Lb : (i <? n) = true) by (apply Nat.ltb_lt; lia). rewrite Lb.
+  simpl; f_equal; apply repeat_length.
 Qed.
 
-Lemma clone_reg_eq c a (s : St) : a <> c ->
-  (forall q, exists s', clone_reg F r32 c a s = Ok s' /\ s' q = upd s c (copy_of (rk (s a)) (s a)) q).
+Lemma conv_reg_eq k c a (s : St) : a <> c ->
+  (forall q, exists s', conv_reg F r32 k c a s = Ok s' /\ s' q = upd s c (copy_of k (s a)) q).
 Proof.
-  intros Hac q. unfold clone_reg, set_reg.
-  set (s0 := upd s c (null_reg F (rk (s a)))).
+  intros Hac q. unfold conv_reg, set_reg.
+  set (s0 := upd s c (null_reg F k)).
   assert (Ea : s0 a = s a). { unfold s0, upd. destruct (Nat.eqb a c) eqn:E; [apply Nat.eqb_eq in E; contradiction|reflexivity]. }
-  assert (Ec : s0 c = null_reg F (rk (s a))). { unfold s0, upd. rewrite Nat.eqb_refl. reflexivity. }
+  assert (Ec : s0 c = null_reg F k). { unfold s0, upd. rewrite Nat.eqb_refl. reflexivity. }
   simpl rd. rewrite Ea, Ec. simpl rk. simpl rn. simpl rderiv. simpl rhess.
-  set (k := rk (s a)). set (ra := s a). set (n := rn ra). set (o := rorder ra).
+  set (ra := s a). set (n := rn ra). set (o := rorder ra).
   set (r2 := alloc F (mkReg k (rndk r32 k (rval ra)) o 0 [] []) n o).
   destruct (alloc_fresh_shape k (rndk r32 k (rval ra)) o n) as (Sk & Sv & So & Sn & Sd & Sh). fold r2 in Sk, Sv, So, Sn, Sd, Sh.
-  unfold copy_of. fold k ra n o r2. rewrite So.
+  unfold copy_of. fold ra n o r2. rewrite So.
   destruct (1 <=? o) eqn:O1.
   - apply Nat.leb_le in O1. rewrite (Sd O1). rewrite Nat.leb_refl. simpl negb. cbv iota.
-    set (g := fun (s : St) i => upd s c (set_d r32 (s c) i (gd F (rd s (Rg a)) i))).
+    set (g := fun (s : St) i => upd s c (set_d r32 (s c) i (gd F (s a) i))).
     assert (G : forall (s1 : St) q, fold_left g (seq 0 n) s1 q
                 = upd s1 c (fold_left (fun r i => set_d r32 r i (gd F (s1 a) i)) (seq 0 n) (s1 c)) q).
     { intros s1 q1. exact (fold_reg (fun r rb i => set_d r32 r i (gd F rb i)) c a (seq 0 n) Hac s1 q1). }
@@ -180,14 +191,93 @@ Proof.
       { rewrite G. unfold upd. rewrite !Nat.eqb_refl. destruct (Nat.eqb a c) eqn:E; [apply Nat.eqb_eq in E; contradiction|].
         rewrite Ea. reflexivity. }
       rewrite Ea2, Ec2. fold ra.
-      unfold upd at 1. unfold upd at 2. destruct (Nat.eqb q c) eqn:Eq; [reflexivity|].
-      rewrite G. unfold upd. rewrite Eq. unfold s0, upd. rewrite Eq. reflexivity.
-    + eexists. split; [reflexivity|]. rewrite G. unfold upd at 1. unfold upd at 3.
-      destruct (Nat.eqb q c) eqn:Eq.
-      * unfold upd. rewrite !Nat.eqb_refl. destruct (Nat.eqb a c) eqn:E; [apply Nat.eqb_eq in E; contradiction|].
-        rewrite Ea. reflexivity.
-      * unfold upd. rewrite Eq. unfold s0, upd. rewrite Eq. reflexivity.
-  - eexists. split; [reflexivity|]. unfold upd. destruct (Nat.eqb q c) eqn:Eq; [reflexivity|]. unfold s0, upd. rewrite Eq. reflexivity.
+      rewrite (upd_q _ c _ q), (upd_q s c _ q). destruct (Nat.eqb q c) eqn:Eq; [reflexivity|].
+      rewrite G, upd_q, Eq. unfold s0. rewrite !upd_q, Eq. reflexivity.
+    + eexists. split; [reflexivity|]. rewrite G.
+      assert (Xa : upd s0 c r2 a = s a) by (rewrite upd_q; destruct (Nat.eqb a c) eqn:E; [apply Nat.eqb_eq in E; contradiction|exact Ea]).
+      assert (Xc : upd s0 c r2 c = r2) by (rewrite upd_q, Nat.eqb_refl; reflexivity).
+      rewrite Xa, Xc. fold ra. rewrite (upd_q _ c _ q), (upd_q s c _ q). destruct (Nat.eqb q c) eqn:Eq; [reflexivity|].
+      unfold s0. rewrite !upd_q, Eq. reflexivity.
+  - eexists. split; [reflexivity|]. rewrite (upd_q _ c _ q), (upd_q s c _ q). destruct (Nat.eqb q c) eqn:Eq; [reflexivity|].
+    unfold s0. rewrite upd_q, Eq. reflexivity.
+Qed.
+
+
+Lemma clone_reg_eq c a (s : St) : a <> c ->
+  (forall q, exists s', clone_reg F r32 c a s = Ok s' /\ s' q = upd s c (copy_of (rk (s a)) (s a)) q).
+Proof. intros Hac q. unfold clone_reg. apply conv_reg_eq. exact Hac. Qed.
+
+(* ---- what the copy observes like ---- *)
+Lemma fold_set_d (f : nat -> A) l : forall r,
+  fold_left (fun r i => set_d r32 r i (f i)) l r
+  = mkReg (rk r) (rval r) (rorder r) (rn r)
+          (fold_left (fun d i => upd_nth i (rndk r32 (rk r) (f i)) d) l (rderiv r)) (rhess r).
+Proof.
+  induction l as [|i l IH]; intros r; simpl; [destruct r; reflexivity|]. rewrite IH. reflexivity.
+Qed.
+Lemma fold_set_h (f : nat * nat -> A) l : forall r,
+  fold_left (fun r p => set_h r32 r (fst p) (snd p) (f p)) l r
+  = mkReg (rk r) (rval r) (rorder r) (rn r) (rderiv r)
+          (fold_left (fun h p => hset h (fst p) (snd p) (rndk r32 (rk r) (f p))) l (rhess r)).
+Proof.
+  induction l as [|i l IH]; intros r; simpl; [destruct r; reflexivity|]. rewrite IH. reflexivity.
+Qed.
+
+Lemma copy_of_obs k ra :
+  let r := copy_of k ra in
+  rk r = k /\ rval r = rndk r32 k (rval ra) /\ rorder r = rorder ra /\ rn r = rn ra /\
+  (forall i, i < rn ra -> gd F r i = if 1 <=? rorder ra then rndk r32 k (gd F ra i) else zero) /\
+  (forall i j, i < rn ra -> j < rn ra -> gh F r i j = if 2 <=? rorder ra then rndk r32 k (gh F ra i j) else zero).
+Proof.
+  unfold copy_of. set (n := rn ra). set (o := rorder ra).
+  set (r2 := alloc F (mkReg k (rndk r32 k (rval ra)) o 0 [] []) n o).
+  destruct (alloc_fresh_shape k (rndk r32 k (rval ra)) o n) as (Sk & Sv & So & Sn & Sd & Sh). fold r2 in Sk, Sv, So, Sn, Sd, Sh.
+  destruct (1 <=? o) eqn:O1.
+  - apply Nat.leb_le in O1. rewrite fold_set_d.
+    set (r3 := mkReg (rk r2) (rval r2) (rorder r2) (rn r2) _ (rhess r2)).
+    assert (D3 : forall i, i < n -> gd F r3 i = rndk r32 k (gd F ra i)).
+    { intros i Li. unfold gd at 1. simpl rorder. rewrite So. assert (E1 : (1 <=? o) = true) by (apply Nat.leb_le; lia). rewrite E1.
+      simpl rderiv. rewrite nth_fold_upd, existsb_seq, (Sd O1), Sk.
+      assert (Lb : (i <? n) = true) by (apply Nat.ltb_lt; lia). rewrite Lb. reflexivity. }
+    destruct (2 <=? o) eqn:O2.
+    + apply Nat.leb_le in O2. destruct (Sh O2) as [Hl Hr]. rewrite fold_set_h. simpl.
+      split; [exact Sk|]. split; [exact Sv|]. split; [exact So|]. split; [exact Sn|]. split.
+      * intros i Li. specialize (D3 i Li). unfold gd in *. simpl in *. exact D3.
+      * intros i j Li Lj. unfold gh at 1. simpl rorder. rewrite So. assert (E2 : (2 <=? o) = true) by (apply Nat.leb_le; lia). rewrite E2.
+        simpl rhess. rewrite hget_fold_hset, existsb_allpairs, Hl, (Hr i Li), Sk.
+        assert (Lb : (i <? n) = true) by (apply Nat.ltb_lt; lia). assert (Lc : (j <? n) = true) by (apply Nat.ltb_lt; lia).
+        rewrite Lb, Lc. reflexivity.
+    + simpl. split; [exact Sk|]. split; [exact Sv|]. split; [exact So|]. split; [exact Sn|]. split; [exact D3|].
+      intros i j _ _. unfold gh. simpl rorder. rewrite So, O2. reflexivity.
+  - split; [exact Sk|]. split; [exact Sv|]. split; [exact So|]. split; [exact Sn|]. split.
+    + intros i _. unfold gd. rewrite So, O1. reflexivity.
+    + intros i j _ _. unfold gh. rewrite So. assert (E2 : (2 <=? o) = false) by (apply Nat.leb_gt; apply Nat.leb_gt in O1; lia).
+      rewrite E2. reflexivity.
+Qed.
+
+(* the observation of C12 for a scalar coincides when the storage rounding fixes what the source holds
+   (always for Real64 and bare scalars; for Real32 every stored number went through float32 already) *)
+Definition rnd_fixes (k : kind) (ra : Reg A) : Prop :=
+  rndk r32 k (rval ra) = rval ra /\
+  (forall i, rndk r32 k (gd F ra i) = gd F ra i) /\ (forall i j, rndk r32 k (gh F ra i j) = gh F ra i j).
+Lemma rnd_fixes_64 ra : rnd_fixes K64 ra.
+Proof. repeat split. Qed.
+
+Lemma map_ext_seq {Y} (f g : nat -> Y) n : (forall i, i < n -> f i = g i) -> map f (seq 0 n) = map g (seq 0 n).
+Proof. intros H. apply map_ext_in. intros i I. apply in_seq in I. apply H. lia. Qed.
+
+Lemma copy_of_obs_eq k ra : rnd_fixes k ra -> obs_reg F (copy_of k ra) = obs_reg F ra.
+Proof.
+  intros (Fv & Fd & Fh). destruct (copy_of_obs k ra) as (_ & Ev & Eo & En & Ed & Eh).
+  unfold obs_reg. rewrite Ev, Eo, En, Fv. f_equal; [f_equal|].
+  - apply map_ext_seq. intros i Li. rewrite (Ed i Li). unfold gd. destruct (1 <=? rorder ra) eqn:O1; [|reflexivity].
+    specialize (Fd i). unfold gd in Fd. rewrite O1 in Fd. exact Fd.
+  - apply map_ext_in. intros [i j] I. simpl.
+    assert (B : i < rn ra /\ j < rn ra).
+    { unfold allpairs in I. apply in_flat_map in I. destruct I as (i' & Ii & I). apply in_map_iff in I.
+      destruct I as (j' & Ej & Ij). injection Ej as -> ->. apply in_seq in Ii, Ij. lia. }
+    rewrite (Eh i j (proj1 B) (proj2 B)). unfold gh. destruct (2 <=? rorder ra) eqn:O2; [|reflexivity].
+    specialize (Fh i j). unfold gh in Fh. rewrite O2 in Fh. exact Fh.
 Qed.
 
 End C.
